@@ -125,6 +125,11 @@ type taskState struct {
 	running []int
 	quietAt time.Duration
 	t0    time.Time
+	// commits: per task, the sequence numbers at which the package committed to an execution (the executing flag
+	// went up; in the same critical section the task was taken out of all queues and the schedule)
+	commits [][]uint64
+	releases [][]uint64 // ... and the sequence numbers at which the flag went down again
+	wasExec []bool
 }
 
 func (s *taskState) do(task int, op string, arg int, inside bool) {
@@ -201,6 +206,19 @@ func execTasks(p *TaskPlan, rc *simkit.RunCtx) {
 			t.MaxDelay(tDelay[ts.MaxDelay])
 		}
 		s.tasks = append(s.tasks, t)
+	}
+	s.commits, s.releases, s.wasExec = make([][]uint64, len(s.tasks)), make([][]uint64, len(s.tasks)), make([]bool, len(s.tasks))
+	rc.Sim.OnStep = func() {
+		for i, t := range s.tasks {
+			ex := modules.VerifSimTaskExecuting(t)
+			if ex && !s.wasExec[i] {
+				s.commits[i] = append(s.commits[i], simrt.Seq())
+			}
+			if !ex && s.wasExec[i] {
+				s.releases[i] = append(s.releases[i], simrt.Seq())
+			}
+			s.wasExec[i] = ex
+		}
 	}
 	for k := 0; k < p.MTLoad; k++ {
 		s.m.StartMicroTask("load", time.Hour, func(ctx context.Context) error {
@@ -453,6 +471,12 @@ func checkTasks(p *TaskPlan, rc *simkit.RunCtx) {
 			pure = false
 		}
 	}
+	if !pure {
+		checkDirectStarts(s, p, rc, execWait)
+		if rc.Failed() {
+			return
+		}
+	}
 	if pure {
 		rc.Probe("pure-queue-run")
 		for k := 1; k < len(s.execs); k++ {
@@ -463,10 +487,12 @@ func checkTasks(p *TaskPlan, rc *simkit.RunCtx) {
 			if b.BeginT-a.BeginT >= execWait-time.Second {
 				continue
 			}
-			// cancelled before b began?
+			// One of the two cancelled before the later one began? (A task cancelled after the queue handler
+			// committed to it still runs, but the handler does not wait for it: its function may even begin
+			// after that of its successor.)
 			can := false
 			for _, o := range s.ops {
-				if o.Task == a.Task && o.Op == "cancel" && o.Inv < b.BeginSeq {
+				if (o.Task == a.Task || o.Task == b.Task) && o.Op == "cancel" && o.Inv < b.BeginSeq {
 					can = true
 				}
 			}
@@ -568,4 +594,93 @@ func shrinkTasks(p *TaskPlan) []any {
 		}
 	}
 	return out
+}
+
+
+// checkDirectStarts covers runs with schedule entries. There a start may legitimately bypass the queue: the
+// schedule handler starts a task directly once its maximum delay after queueing has passed. Two executions may
+// therefore overlap within the execution-wait limit only if at least one of them can have been such a direct
+// start; two starts that both must have come through the queue may not.
+func checkDirectStarts(s *taskState, p *TaskPlan, rc *simkit.RunCtx, execWait time.Duration) {
+	delay := func(task int) time.Duration {
+		switch md := p.Tasks[task].MaxDelay; {
+		case md < 0:
+			_, _, d := modules.VerifSimTaskLimits()
+			return d
+		default:
+			return tDelay[md]
+		}
+	}
+	eligible := func(e *tExec) bool {
+		// requests made before the previous commit of this task were wiped by it
+		var own, prevBegin uint64
+		for _, c := range s.commits[e.Task] {
+			if c < e.BeginSeq && c > own {
+				own = c
+			}
+		}
+		for _, c := range s.commits[e.Task] {
+			if c < own && c > prevBegin {
+				prevBegin = c
+			}
+		}
+		d := delay(e.Task)
+		var queued, sched []time.Duration
+		for _, o := range s.ops {
+			if o.Task != e.Task || o.Inv > e.BeginSeq || (o.Ret != 0 && o.Ret < prevBegin) {
+				continue
+			}
+			switch o.Op {
+			case "queue", "prio", "asap":
+				queued = append(queued, o.T)
+			case "sched":
+				sched = append(sched, o.At)
+			case "schedzero":
+				sched = append(sched, o.T)
+			}
+		}
+		for _, t := range queued {
+			if d > 0 && t+d <= e.BeginT {
+				return true
+			}
+		}
+		due := 0
+		for _, t := range sched {
+			if t+d <= e.BeginT {
+				return true
+			}
+			if t <= e.BeginT {
+				due++
+			}
+		}
+		// A task that is waiting in a queue (put there by a request or by the schedule handler when its first
+		// scheduled time came) and is then given a new scheduled time is started directly at that time.
+		if due > 0 && len(queued)+due >= 2 {
+			return true
+		}
+		return false
+	}
+	for i, a := range s.execs {
+		for _, b := range s.execs[i+1:] {
+			if a.Ended && a.EndSeq < b.BeginSeq {
+				continue
+			}
+			if b.BeginT-a.BeginT >= execWait-time.Second {
+				continue
+			}
+			can := false
+			for _, o := range s.ops {
+				if (o.Task == a.Task || o.Task == b.Task) && o.Op == "cancel" && o.Inv < b.BeginSeq {
+					can = true
+				}
+			}
+			if can || eligible(a) || eligible(b) {
+				rc.Probe("overlap-with-direct-start")
+				continue
+			}
+			rc.Fail("C07.queue-overlap", "a task that had to come through the queue was started while another such task was still running within the execution-wait limit (runs with schedule entries)",
+				fmt.Sprintf("task %d began at %v and was still running when task %d began at %v; neither had a maximum delay that could have expired", a.Task, a.BeginT, b.Task, b.BeginT))
+			return
+		}
+	}
 }
